@@ -255,6 +255,10 @@ class EncodeState:
 
             raw_value = float(internal_value)
 
+        if bit_length > 64 and base_data_type in (DataType.A_INT32, DataType.A_UINT32):
+            odxraise(f"Integer objects cannot be larger than 64 bits (is: {bit_length})", EncodeError)
+            return
+
         # If the bit length is zero, encode an empty value
         if bit_length == 0:
             self.emplace_bytes(b'')
